@@ -52,6 +52,11 @@ func genKnobs(r *simcore.Rand, crash bool) Knobs {
 		k.DirtyZero = r.Bool(0.5)
 		k.NoAsync = r.Bool(0.5)
 	}
+	if r.Bool(0.6) {
+		// log-uniform 50 .. 5000: a few hundred bytes reach ethdb.IdealBatchSize
+		k.ValueScale = 50 << uint(r.Intn(7))
+		k.ValueScale += r.Intn(k.ValueScale)
+	}
 	return k
 }
 
@@ -167,6 +172,11 @@ func genOps(r *simcore.Rand, k Knobs, nnodes int, tier string, crash bool) []Op 
 			ops = append(ops, Op{Kind: "freeze"})
 		case 6:
 			ops = append(ops, Op{Kind: "commit", A: a})
+			if crash && r.Bool(0.5) {
+				// a rewind below the state that was just made durable (path scheme: below the disk
+				// layer, inside the state history)
+				ops = append(ops, Op{Kind: "sethead", A: r.Intn(1 << 20)})
+			}
 		case 7:
 			if k.Scheme == rawdb.HashScheme && k.Snapshots {
 				ops = append(ops, Op{Kind: "snapcap"})
@@ -258,10 +268,11 @@ func shrink(pl any) []any {
 		}
 	}
 	// simpler knobs
-	if p.Knobs.MaxDiff != 0 || p.Knobs.JournalFile || p.Knobs.DirtyZero || p.Knobs.Archive || p.Knobs.Snapshots {
+	if p.Knobs.MaxDiff != 0 || p.Knobs.JournalFile || p.Knobs.DirtyZero || p.Knobs.Archive || p.Knobs.Snapshots || p.Knobs.ValueScale != 0 {
 		for _, f := range []func(k *Knobs){
 			func(k *Knobs) { k.MaxDiff = 0 }, func(k *Knobs) { k.JournalFile = false }, func(k *Knobs) { k.DirtyZero = false },
 			func(k *Knobs) { k.Archive = false }, func(k *Knobs) { k.Snapshots = false }, func(k *Knobs) { k.NoAsync = true },
+			func(k *Knobs) { k.ValueScale = 0 },
 		} {
 			q := clonePlan(p)
 			before := q.Knobs
@@ -443,7 +454,7 @@ func Checks() map[string]*simcore.Check {
 			Components: comps, Perturbed: perturbed,
 			Runs: map[string]int{"quick": 320, "thorough": 9600},
 			Gen:  gen(true), Decode: decode, Run: runC39, Shrink: shrink,
-			ProbeNames: []string{"no-loss-bound-evaluated", "head-above-durable-state", "rebooted-at-genesis", "rebooted-above-genesis", "rebooted-with-frozen-blocks",
+			ProbeNames: []string{"image-head-marker-below-disk-layer", "no-loss-bound-evaluated", "head-above-durable-state", "rebooted-at-genesis", "rebooted-above-genesis", "rebooted-with-frozen-blocks",
 				"explicit-state-commit", "freeze-moved-blocks", "restart", "snapshot-flattened"},
 		},
 	}
